@@ -199,6 +199,19 @@ def build(run):
         yield "f * (1/g) (no cancel)", lambda m, t, g: P(f, D(one, Opq("g")))
         yield "(1/(1/f)) * (1/f)", lambda m, t, g: P(D(one, D(one, f)), D(one, f))
         yield "(f*g) * (1/(f*g)) product base", lambda m, t, g: P(P(f, Opq("g")), D(one, P(f, Opq("g"))))
+        # factors that are NOT constant real powers of a base (quotients, symbolic exponents, sums, functions, indexed factors) next to a
+        # cancelling pair, with the pair split over nested products: they are carried over unchanged
+        p_, q_ = Opq("p"), Opq("q")
+        yield "recip+other: ((1/f) (p/q)) f^2", lambda m, t, g: P(P(D(one, f), D(p_, q_)), W(f, C.IntValue(2)))
+        yield "recip+other: (f^2 (p/q)) (1/f)", lambda m, t, g: P(P(W(f, C.IntValue(2)), D(p_, q_)), D(one, f))
+        yield "recip+other: ((p/q) f) (1/f)", lambda m, t, g: P(P(D(p_, q_), f), D(one, f))
+        yield "recip+other: (f p^q) (1/f)^3", lambda m, t, g: P(P(f, W(C.Sum(C.IntValue(2), C.Product(p_, p_)), q_)), W(D(one, f), C.IntValue(3)))
+        yield "recip+other: ((2/q) (1/f)) f^2", lambda m, t, g: P(P(D(C.IntValue(2), q_), D(one, f)), W(f, C.IntValue(2)))
+        yield "recip+other: (f (p+q)) (1/f)", lambda m, t, g: P(P(f, C.Sum(p_, q_)), D(one, f))
+        yield "recip+other: (sin(p) f) ((1/f) q)", lambda m, t, g: P(P(C.Sin(p_), f), P(D(one, f), q_))
+        yield "recip+other: (f u_a) (1/f) (free index)", lambda m, t, g: P(P(f, U("u", (2,), a)), D(one, f))
+        yield "recip+other: ((1/detJ) (p/q)) detJ^2", lambda m, t, g: P(P(D(one, C.JacobianDeterminant(m)), D(p_, q_)), W(C.JacobianDeterminant(m), C.IntValue(2)))
+        yield "recip+other: (f |p|) (1/f) (p/q)", lambda m, t, g: P(P(P(f, C.Abs(p_)), D(one, f)), D(p_, q_))
 
     pats = list(patterns())
     for mname in MESHES:
@@ -209,6 +222,9 @@ def build(run):
         ob(f"JacobianCanceller/{nm}", "tri2d", bld, [CJ.JacobianCanceller])
     for nm, bld in pats[14:32]:
         ob(f"IdentityEliminator/{nm}", "tri2d", bld, [CJ.IdentityEliminator])
+    first_recip = [n_ for n_, _ in pats].index("f * (1/f)")
+    for nm, bld in pats[first_recip:]:
+        ob(f"ReciprocalCanceller/{nm}", "tri2d", bld, [CJ.ReciprocalCanceller])
 
     # ---- _as_base_exponent: den f == den(base)^exponent, no sign assumption
     def abe(name, mkf):
